@@ -71,13 +71,26 @@ checks = {
    "proto2 messages with 1-3 required fields, flat and nested (child + repeated kids), all presence vectors symbolic: Marshal/MarshalTo return an error iff a required "
    "field of the message or of a nested message reached is unset (all-unset included); Unmarshal of the canonical bytes of every presence vector returns an error iff "
    "one is missing (empty input and empty nested messages included); complete messages never fail.", "§5 C17"),
+ "C11": ("other",
+   "Symbolic execution of csproto's dispatch code over candidate values whose real method sets realise every tier combination (csproto methods over a real v2 message, "
+   "v1 XXX_ methods over a real v2 message, plain v2, gogo-registered, legacy v1, TextMarshaler, non-message pointer, non-pointer, typed nil, nil interface): tier order via "
+   "counters, owning runtime via logged contract stubs, classification correct and identical on first use and on cache hits, every failed type assertion / nil dereference "
+   "an obligation; all paths replayed natively against the real runtimes.", "§5 C11"),
+ "C12": ("other",
+   "Symbolic execution of extensions.go over message x descriptor candidates with the runtimes' extension APIs as logged stubs: matching pairs reach exactly the owning "
+   "runtime, mismatching pairs yield false/error/documented panic with no runtime call; every path is replayed natively where the coherence laws are asserted on real "
+   "v2 and gogo messages with real extensions.", "§5 C12"),
+ "C18": ("other",
+   "Symbolic execution of json.go with the five options symbolic: the codec invoked receives exactly the options given (receiver structs of the stubbed protojson/jsonpb "
+   "calls are read back), nil handling, json.Marshaler/Unmarshaler precedence, error propagation; every path replayed natively where the real codecs must produce valid "
+   "JSON that round-trips and shows each option's effect.", "§5 C18"),
 }
 
 na = [
  ("C16", "generator totality/determinism/compilability quantifies over programs and runs through text/template reflection and the Go compiler; no SMT encoding within reach (DESIGN.md §6)"),
 ]
 
-pending = ["C04","C05","C06","C07","C08","C09","C10","C11","C12","C13","C14","C15","C17","C18","C20"]
+pending = ["C20"]
 
 m = {
  "version": 1,
